@@ -502,6 +502,10 @@ impl<B: Backend> Pool<B> {
                 });
             }
             if raw.capacity() < raw.len() { viols.push(format!("h{} capacity {} < len {}", i, raw.capacity(), raw.len())); }
+            // the pivot's tag byte (hook): never 0 (the niche), its two low bits name the representation, and for the inline
+            // representation it is exactly (len << 2) | 1 -- the arithmetic proved over gen/TagGen.v
+            { let tb = raw.verif_tag_byte(); let want = if raw.is_inline() { 1 } else if raw.is_borrowed() { 2 } else { 3 };
+              if tb == 0 || tb & 3 != want || (raw.is_inline() && tb as usize != (bytes.len() << 2 | 1)) { viols.push(format!("h{} tag byte {:#04x} is not the byte of a {} value of {} bytes", i, tb, ["?", "inline", "borrowed", "heap"][want as usize], bytes.len())); } }
             let ptr = raw.as_ptr() as usize;
             let (tag, where_, off, count, vlen, cap) = if raw.is_inline() {
                 let base = raw as *const _ as usize;
